@@ -71,9 +71,9 @@ def run_ser(prop, tier, seed, scratch, check):
                   "ranging over all scalar classes; the harness builds each tree with the real API (several members per class, three entry-point "
                   "styles), then sweeps class members TLC cannot enumerate (code points, float64/int samples, deep random trees). "
                   "distinct_nontrivial = distinct concrete trees + distinct code points checked.", "tlc MC.tla (spec/JsonText.tla) ; vh ser -check " + check)
-    configs = [dict(name="docs7", maxtoks=7, maxdepth=2)]
+    configs = [dict(name="docs9", maxtoks=9, maxdepth=3, maxwidth=3, lits=["null", "true", "false"])]
     if not q:
-        configs = [dict(name="docs9", maxtoks=9, maxdepth=3, maxwidth=3, lits=["null", "true", "false"])]
+        configs = [dict(name="docs12", maxtoks=12, maxdepth=3, maxwidth=3, lits=["null", "true"], tlc_timeout=1800)]
     violations = []
     for ci, c0 in enumerate(configs):
         name = "%s-%s" % (prop, c0["name"])
@@ -156,7 +156,8 @@ def run_parse(prop, tier, seed, scratch):
                 lits=["null", "true", "false"], prekinds=["txt", "NL"], invariants=["TypeOK", "RefAgree"])
     cfgs = [dict(base, name="valid-t7-ws1", maxtoks=8, maxdepth=2, wskinds=["SP", "NL", "TAB", "CR", "MIX"], wsbudget=1)]
     if not q:
-        cfgs = [dict(base, name="valid-t9-ws2", maxtoks=10, maxdepth=3, wskinds=["SP", "NL", "TAB", "CR", "MIX"], wsbudget=2, tlc_timeout=1800)]
+        cfgs = [dict(base, name="valid-t9-ws1", maxtoks=9, maxdepth=3, wskinds=["SP", "NL", "TAB", "CR", "MIX"], wsbudget=1, tlc_timeout=1800),
+                dict(base, name="valid-t7-ws2", maxtoks=7, maxdepth=2, wskinds=["SP", "NL", "TAB", "CR", "CRLF", "MIX", "SP3"], wsbudget=2, tlc_timeout=1800)]
     for c0 in cfgs:
         simple_run(prop, scratch, "%s-%s" % (prop, c0["name"]), c0,
                    lambda p: ["parse", "-in", p, "-prop", prop, "-seed", str(seed), "-picks", "2" if q else "3",
